@@ -88,7 +88,7 @@ def doReset (ws : List String) : DState :=
       { s := (poll s0).1, dup, notified := [] }
   | _, _ => { dinit with dup }
 
-def step (d : DState) (line : String) : DState × String :=
+def stepOne (d : DState) (line : String) : DState × String :=
   let ws := words line
   match ws with
   | "reset" :: _ => (doReset ws, "ok")
@@ -172,7 +172,7 @@ def parseObs (os : List String) : Option Obs :=
     | _, _, _ => none
   | _, _, _, _ => none
 
-def spec (d : DState) (op : String) (obs : String) : String :=
+def specOne (d : DState) (op : String) (obs : String) : String :=
   let ws := words op
   let os := words obs
   match ws with
@@ -261,6 +261,35 @@ def spec (d : DState) (op : String) (obs : String) : String :=
             else "specok"
           | _, _ => "specfail C40/unparsed"
         | _ => "specok"
+
+/-- `drain`: `poll` until it answers `Pending` (at most 64 calls); the results are joined by ` ;; `.
+    The generator issues it right after every injected task failure, so that the failure is consumed before
+    anything else happens (in the real tracker a task's result and the task are one thing: a header can
+    not be delivered by a task that already timed out). -/
+def drainLoop : Nat → DState → List String → DState × List String
+  | 0, d, acc => (d, acc)
+  | fuel + 1, d, acc =>
+    let (d', o) := stepOne d "poll"
+    if o.startsWith "poll=pending" then (d', acc ++ [o]) else drainLoop fuel d' (acc ++ [o])
+
+def step (d : DState) (line : String) : DState × String :=
+  match words line with
+  | "drain" :: _ =>
+    let (d', outs) := drainLoop 64 d []
+    (d', " ;; ".intercalate outs)
+  | _ => stepOne d line
+
+/-- the spec of a `drain` is the spec of each of its polls, in the model state that poll started from -/
+def specDrain : DState → List String → String
+  | _, [] => "specok"
+  | d, seg :: rest =>
+    let v := specOne d "poll" seg
+    if v.startsWith "specfail" then v else specDrain (stepOne d "poll").1 rest
+
+def spec (d : DState) (op : String) (obs : String) : String :=
+  match words op with
+  | "drain" :: _ => if obs == "panic" then "specfail C40/panic unexpected panic" else specDrain d (obs.splitOn " ;; ")
+  | _ => specOne d op obs
 
 def handler : Driver.Handler DState := { init := dinit, step := step, spec := spec }
 
